@@ -9,7 +9,7 @@ RULE = (
     "offsets, SPD information with cross terms (cond <= 1e4), arbitrary (inconsistent) measurements, fixed subset >= 1 via flags or "
     "fix_first_pose, initial guess displaced by up to 1e6 (several free vertices may start from one shared pose object); optimize() with defaults or random tol in [1e-10,1e-2], max_iter >= 3. Oracle: independent "
     "closed form - Cholesky-whitened residual rows over the free coordinates solved with numpy.linalg.lstsq; then (history) a second problem on the same Graph object - one more vertex fixed at a new place, possibly one released, new initial guesses - against its own closed form. Non-trivial = loop, multi-edge, "
-    "landmark edge with non-zero offset, >= 2 fixed, or initial guess > 1e3 away."
+    "landmark edge with non-zero offset, >= 2 fixed, or initial guess > 1e3 away. Also: a common information scale 1e-12..1e9, the same edge object listed twice, integer / numpy fixed flags; with probability 0.4% a consistent linear graph of 4096..16385 edges (up to ~49000 unknowns) that must be solved by one step."
 )
 BUDGET = {"quick": 16 * 1500, "thorough": 16 * 10000}
 TOLERANCES = {
